@@ -166,7 +166,9 @@ Verdict(o) ==
        nbad    |-> Cardinality(mfb),
        c09keep |-> PF(ok /\ wf /\ o.opts.skip, C09Bad(o, tmIn) = {}),
        c09defs |-> PF(ok /\ o.opts.skip, o.defsame),
-       c09form |-> PF(ok /\ wf /\ o.opts.skip, {k \in KeptRefs(o) : ~FormOKRel(o, k)} = {}),
+       \* (the definitions section is left untouched, spelling included: only the other refs are judged)
+       c09form |-> PF(ok /\ wf /\ o.opts.skip,
+                      {k \in KeptRefs(o) : o.nodes[k].path[1] # "definitions" /\ ~FormOKRel(o, k)} = {}),
        c09then |-> PF(ok /\ wf /\ o.entry = "SkipThenFull" /\ cyc = {}, o.samefull),
        c10root |-> PF(term, o.rootsame),
        c10opts |-> PF(term, o.optssame),
